@@ -123,7 +123,7 @@ PROPS = {
         ],
         "trusted_base": [BUILDERMODEL],
         "assumptions": ["lookups (LocalPathFor*) and the content of package directories are checked by the lane's oracle against the scripted world; the model's final tables are compared with the bundle's accessors"],
-        "explanation": "C08_closure (error-free run: every artefact of the order-free reachability closure Reach is analysed and its package stored under its fetched content), C08_sound (every analysed artefact is reachable, for any run), C08_exact, C08_nothing_pending, C08_registry_same_place / C08_registry_lookup (a registry source is queued as the registry's answer joined with the caller's sub-path), C08_meta_kept. Tie: 'builder' lane: full call-log and final-table comparison; oracle = reference closure computed in Go from the scripted world + every lookup + file contents + metadata.",
+        "explanation": "C08_closure (error-free run: every artefact of the order-free reachability closure Reach is analysed and its package stored under its fetched content), C08_sound (every analysed artefact is reachable, for any run), C08_exact, C08_nothing_pending, C08_registry_same_place / C08_registry_lookup (a registry source is queued as the registry's answer joined with the caller's sub-path), C08_meta_kept; Props/C08b: C08_tables_wellkept (distinct keys in pkgDirs/resolved, metadata only for fetched packages, deprecation recorded exactly with a resolved version — every run), C08_reopen (manifest of the final tables opens to the same tables, hypotheses on the environment only), C08_lookup_remote / C08_lookup_registry / C08_lookup_sound / C08_lookup_meta / C08_lookup_deprec (lookups on the re-opened bundle answer root/content/sub inside root), C08_reach_validSub, C08_cex_sub_escapes (why normalised sub-paths are assumed). Tie: 'builder' lane: full call-log and final-table comparison; oracle = reference closure computed in Go from the scripted world + every lookup + file contents + metadata.",
     },
     "C13": {
         "lanes": [
